@@ -201,6 +201,22 @@ def check_half_weight_symmetry(ctx, ck, rule='R-SYM.half-weights', entry='minine
                                             (isinstance(v.func, ast.Attribute) and isinstance(v.func.value, ast.Name)
                                              and v.func.value.id in half)):
                             half.add(s.targets[0].id)
+        # an array indexed [<mask of grounded pulses>, <literal half>, ...] is a per-half array whatever built it
+        gmask = set()
+        for _ in range(2):
+            for s in walk_no_nested(g.node):
+                if isinstance(s, ast.Assign) and len(s.targets) == 1 and isinstance(s.targets[0], ast.Name):
+                    if any((isinstance(x, ast.Attribute) and x.attr in GROUND_ATTRS) or
+                           (isinstance(x, ast.Name) and x.id in gmask) for x in ast.walk(s.value)):
+                        gmask.add(s.targets[0].id)
+        for s in walk_no_nested(g.node):
+            t = s.targets[0] if isinstance(s, ast.Assign) and len(s.targets) == 1 else (s.target if isinstance(s, ast.AugAssign) else None)
+            if isinstance(t, ast.Subscript) and isinstance(t.value, ast.Name) and isinstance(t.slice, ast.Tuple) and \
+                    len(t.slice.elts) >= 2 and isinstance(t.slice.elts[1], ast.Constant) and t.slice.elts[1].value in (0, 1) \
+                    and not isinstance(t.slice.elts[1].value, bool):
+                if any((isinstance(x, ast.Attribute) and x.attr in GROUND_ATTRS) or (isinstance(x, ast.Name) and x.id in gmask)
+                       for x in ast.walk(t.slice.elts[0])):
+                    half.add(t.value.id)
         n_arr += len(half)
         for nm in sorted(half):
             groups = {}
